@@ -89,7 +89,18 @@ func mintHistory(e *Env, h int) bool {
 	if r.N(2) == 0 {
 		ratio = sdkmath.LegacyNewDecWithPrec(int64(r.N(1000001)), 6).String()
 	}
+	genesisTotal := sdkmath.ZeroInt() // urise + uvrise in the bank genesis (balances), for the first-mint oracle
 	cfg.GenesisMut = func(_ sim.Codec, gs map[string]json.RawMessage) {
+		var bg struct {
+			Balances []struct {
+				Coins sdk.Coins `json:"coins"`
+			} `json:"balances"`
+		}
+		if json.Unmarshal(gs["bank"], &bg) == nil {
+			for _, b := range bg.Balances {
+				genesisTotal = genesisTotal.Add(b.Coins.AmountOf("urise")).Add(b.Coins.AmountOf("uvrise"))
+			}
+		}
 		var m map[string]any
 		_ = json.Unmarshal(gs["liquidityincentive"], &m)
 		if m == nil {
@@ -133,6 +144,14 @@ func mintHistory(e *Env, h int) bool {
 		return ei.CurrentEpoch
 	}
 	u0, v0 := sup()
+	// the very first mint (in the block sim.New produced) covers at most 60 s: the chain's default genesis must leave the
+	// minter uninitialised, so that the first call starts the clock instead of minting for the time since 1970
+	if genesisTotal.IsPositive() {
+		minted := u0.Add(v0).Sub(genesisTotal)
+		bound := appmint.InflationRateCapInitial.MulInt(genesisTotal).MulInt64(60).QuoInt64(31536000).Ceil().TruncateInt().AddRaw(2)
+		e.Oracle("first_mint_prorated", !minted.IsNegative() && minted.LTE(bound), "first block minted %s of a genesis supply %s (60 s at the initial cap allow %s)", minted, genesisTotal, bound)
+		e.Stat("first_mint_checked")
+	}
 	e.In("reset ratio=%s supply=%s:%s last=%s genesis=%d", ratioDec.BigInt(), u0, v0, last(), appmint.Genesis.UnixNano())
 	steps := 14
 	// time of the last block in which the mint function ran (the `minute` epoch fired), tracked by the harness itself:
